@@ -1,10 +1,104 @@
 import BFL.Driver.Proto
-/- Driver entries of this group (stub: no operation handled yet). -/
+import BFL.Driver.Density
+import BFL.Model.SUKF
+/-
+Driver entry for the serial unscented correction (C05).
+
+The model is executed over `Rat`: every field operation exact, `sqrt` (of the covariance weights) and
+the final `log` / `exp` of the likelihood through `Float` (`transcRatViaFloat`).  Every matrix the
+model inverts — noise blocks, `C_inv`, the innovation covariance of the standard correction,
+`I + V R⁻¹ U` and the assembled `S` of the factorised likelihood — is inverted once and certified
+exactly (`A·X = 1 ∧ X·A = 1`); an argument that was not certified is answered with the zero matrix.
+
+  sukf n msz bs red k s vM vP vI  y(msz) wm(s) wc(s)  means(n×k) covs(n×nk) outw(k)  X(n×sk) Yp(msz×sk)  R
+      red = 0: R is msz×msz, red = 1: R is bs×bs
+   -> ok  mean(nk) cov(nnk) weight(k)   lik k L.. | nolik
+          U mean(nk) cov(nnk) lik(k)            (the standard additive correction of the model, if the size divides)
+      means / covariances as exact rationals, likelihoods as double bit patterns
+-/
 namespace BFL.DriverSUKF
-open BFL BFL.Proto
+open BFL BFL.Proto BFL.DriverDensity
+
+attribute [local instance] transcRatViaFloat
+
+/-- certified inverses only: an argument outside the table gets the zero matrix -/
+def invStrict (tbl : List InvEntry) : InvFn Rat := fun n A =>
+  let key := A.toList
+  match tbl.find? (fun e => e.n == n && e.key == key) with
+  | some e => Mat.of (fun i j => e.inv[i.val * n + j.val]!)
+  | none => Mat.zero
+
+def colBlock {r : Nat} (s k : Nat) (A : Mat Rat r (s * k)) (i : Fin k) : Mat Rat r s :=
+  Mat.eval (Mat.of (fun a j => A a ⟨s * i.val + j.val, by
+    have hi := i.isLt; have hj := j.isLt
+    calc s * i.val + j.val < s * i.val + s := by omega
+      _ = s * (i.val + 1) := by rw [Nat.mul_succ]
+      _ ≤ s * k := Nat.mul_le_mul_left s hi⟩))
+
+def readGM (n k : Nat) : R (GM Rat n k) := do
+  let means ← matCM rat n k
+  let covs ← matCM rat n (n * k)
+  let w ← vec rat k
+  pure { mean := fun i => Vec.eval (Vec.of (fun r => means r i))
+         cov := fun i => colBlock n k covs i
+         weight := w }
+
+def outGM {n k : Nat} (b : GM Rat n k) : List String :=
+  ((List.finRange k).flatMap fun i => outVec ratStr (b.mean i)) ++
+  ((List.finRange k).flatMap fun i => outMatCM ratStr (Mat.eval (b.cov i))) ++
+  (outVec ratStr b.weight)
+
+def sukf : R String := do
+  let n ← nat; let msz ← nat; let bs ← nat; let red ← bool; let k ← nat; let s ← nat
+  let vM ← bool; let vP ← bool; let vI ← bool
+  let y ← vec rat msz
+  let wm ← vec rat s
+  let wc ← vec rat s
+  let b ← readGM n k
+  let X ← matCM rat n (s * k)
+  let Yp ← matCM rat msz (s * k)
+  let R : SNoise Rat msz bs ← if red then (do let R0 ← matCM rat bs bs; pure (.reduced (Mat.eval R0)))
+                              else (do let R0 ← matCM rat msz msz; pure (.full (Mat.eval R0)))
+  done
+  if bs == 0 then pure "bad-args" else
+  let inp : SukfIn Rat n msz s k :=
+    { validMeas := vM, validPred := vP, validInnov := vI, y := y
+      X := fun i => colBlock s k X i, Yp := fun i => colBlock s k Yp i, wm := wm, wc := wc }
+  let out : GM Rat n k := { b with weight := Vec.of (fun _ => 0) }   -- the caller's weights are not part of the comparison
+  if hdiv : msz % bs = 0 then
+    if !(vM && vP && vI) then
+      pure (join ("ok" :: outGM (sukfCorrect invQ bs R inp b out) ++ ["nolik"]))
+    else
+    have h : (msz / bs) * bs = msz := Nat.div_mul_cancel (Nat.dvd_of_mod_eq_zero hdiv)
+    let Rc := R.cast h
+    let nb := msz / bs
+    -- pass 1: the matrices that will be inverted (only the block inverses are needed to form them)
+    let eR := (List.finRange nb).map fun j => mkEntry (Mat.eval (Rc.blockAt j))
+    let inv1 := invStrict eR
+    let perComp := (List.finRange k).flatMap fun i =>
+      let c := sukfComps inv1 bs hdiv R inp b i
+      let u := ukfComp inv1 Rc.toFull (b.mean i) (b.cov i) (inp.X i) (castRows h (inp.Yp i)) wm wc (castVec h y)
+      let rn : RNoise Rat nb bs := RNoise.perBlock Rc.row
+      [mkEntry (Mat.eval (sukfCinv inv1 Rc c.Y)), mkEntry u.Pyy,
+       mkEntry (Mat.eval (uvrM inv1 c.Y c.Y.transpose rn)), mkEntry (Mat.eval (assembleS c.Y c.Y.transpose rn))]
+    let tbl := eR ++ perComp
+    if !(tbl.all (·.ok)) then pure "inv-cert-fail" else
+    let inv := invStrict tbl
+    -- pass 2: the model's own definitions with the certified routine
+    let res := sukfCorrect inv bs R inp b out
+    let res : GM Rat n k := { mean := fun i => Vec.eval (res.mean i), cov := fun i => Mat.eval (res.cov i), weight := res.weight }
+    let lik := Vec.eval (sukfLikelihoods inv bs hdiv R inp b)
+    let us := (List.finRange k).map fun i =>
+      ukfComp inv Rc.toFull (b.mean i) (b.cov i) (inp.X i) (castRows h (inp.Yp i)) wm wc (castVec h y)
+    let uOut := (us.flatMap fun u => outVec ratStr u.mean) ++ (us.flatMap fun u => outMatCM ratStr (Mat.eval u.cov))
+      ++ (us.map fun u => outF u.lik)
+    pure (join ("ok" :: outGM res ++ ["lik", toString k] ++ outVec outF lik ++ ["U"] ++ uOut))
+  else
+    pure (join ("ok" :: outGM (sukfCorrect invQ bs R inp b out) ++ ["nolik"]))
 
 def handle (op : String) (args : List String) : Option String :=
   match op with
+  | "sukf" => some ((run sukf args).getD "bad-args")
   | _ => none
 
 end BFL.DriverSUKF
